@@ -295,6 +295,13 @@ class Gen:
             for key in keys:
                 for m in alive:
                     yield "c.get emb %d dm %s" % (m, key)
+            # the FIRST write a promoted owner sees for a partition may be a Delete (it has no primary fragment of the DMap
+            # yet, the surviving copies are on backup owners): it removes every copy like any other Delete
+            for key in r.sample(keys, min(2, len(keys))):
+                yield "c.del %s %d dm %s" % (r.choice(["emb", "raw"]), r.choice(alive), key)
+                orc.hit("delete_first_after_loss")
+                for m in alive:
+                    yield "c.get emb %d dm %s" % (m, key)
             for key in keys:
                 rep = yield "c.own dm %s" % key
                 p, b = rep.split("pick=")[1].split()[0].split("/")
